@@ -1,4 +1,4 @@
-import TmcgProofs.RbcGlobal
+import TmcgProofs.RbcLiveN
 /-
   C14, second sentence: "Whenever all protocol messages are eventually handed over, every
   broadcast of an honest sender is delivered by all honest parties, and if one honest party
@@ -7,13 +7,31 @@ import TmcgProofs.RbcGlobal
   Formulation over the system model of RbcGlobal.lean.  A run is an event list `evs`
   (`run H T c evs = some s`).  "All protocol messages have been handed over" is a property of the
   RUN: every message an honest party sent to an honest party (an entry of `s.log`) occurs as a
-  `recv` event of the run at its destination, at a position after it was sent — we only need:
-  it occurs as a `recv` event.  "Settled": one more `Deliver` call of any honest party with no
-  input changes nothing and delivers nothing (all buffered deliverable slots have been handed
-  out — the real event loop reaches this by calling Deliver until it returns false).
+  `recv` event of the run at its destination.  "Settled": one more `Deliver` call of any honest
+  party with no input changes nothing and delivers nothing (all buffered deliverable slots have
+  been handed out — the real event loop reaches this by calling Deliver until it returns false).
 
   Scope: one channel (`c.ID`), FIFO mode on or off as configured, the default `fifo_skip = 0`,
   no `DeliverFrom`/channel switching (those are per-party theorems in RbcLocal.lean).
+
+  RESULT.  The two statements are FALSE as first written (`rbc_validity_refuted`,
+  `rbc_totality_refuted`, and three further counterexamples); the corrected statements
+  `rbc_validity'`, `rbc_totality'` are proved (files RbcLiveA … RbcLiveN).  What had to change:
+
+  (1) "handed over" must mean CONSUMED (`AllConsumed`, RbcLiveM/N): an iteration of `Deliver`
+      that lets a buffered message out of `deliver_buf` returns before it calls
+      `aiou->Receive`; in the model such a `recv` event does not look at its message.  With the
+      weaker reading a party can miss a message for ever (`Swallow.swallow_breaks`).
+      Needed for validity and for totality.
+  (2) validity only: the digest `H v` must pass the length check of r-echo / r-ready
+      (`ioLen (H v) ≤ 2 · ioLen (T tag)`, `LenOk`); the model treats `H` and `T` as independent
+      parameters, for the real hashes the check always passes (`LenCx.long_digest_breaks`).
+      In FIFO mode this is needed for the earlier slots of the sender, too.
+  (3) validity in non-FIFO mode only: the random sequence number must be `≥ 1` (a message with
+      `seq < 1` is dropped as malformed, `SeqCx.seq_zero_breaks`) and the sender must not have
+      broadcast another value under the same tag (the second r-send is filtered as a
+      duplicate, `DupCx.reused_tag_breaks`).  In FIFO mode both hold automatically.
+  Totality needs nothing but (1): it also holds for Byzantine senders, in both modes.
 -/
 namespace Tmcg.Rbc
 
@@ -31,29 +49,227 @@ def Settled (H : Int → Int) (T : Tag → Int) (c : Cfg) (s : Sys) : Prop :=
 
 variable {H : Int → Int} {T : Tag → Int} {c : Cfg}
 
-/-- **validity**: in a settled run in which every message between honest parties was handed over,
-    every value broadcast by an honest sender on the channel has been delivered by every honest
-    party (under the tag it was broadcast with) -/
-theorem rbc_validity (hy : Hyp H c) {evs : List Event} {s : Sys}
-    (hrun : run H T c evs = some s) (hall : AllHandedOver c evs s) (hset : Settled H T c s)
-    {k : Nat} {tag : Tag} {v : Int} (hk : c.honest k) (hb : (k, tag, v) ∈ s.bc)
-    {i : Nat} (hi : c.honest i) :
-    (i, tag, v) ∈ s.dl := by
-  sorry
+/-! ## the corrected statements -/
 
-/-- **totality**: in such a run, a slot delivered by one honest party has been delivered (with
-    the same value) by every honest party — also for Byzantine senders -/
-theorem rbc_totality (hy : Hyp H c) {evs : List Event} {s : Sys}
-    (hrun : run H T c evs = some s) (hall : AllHandedOver c evs s) (hset : Settled H T c s)
+/-- a settled party has no deliverable buffered message -/
+theorem settled_quiet (hy : Hyp H c) {evs : List Event} {s : Sys}
+    (hrun : run H T c evs = some s) (hset : Settled H T c s) {j : Nat} (hj : c.honest j) :
+    findFirst (deliverable (s.st j)) (s.st j).deliverBuf = none := by
+  have hP := (reach_inv hy (run_reach _ _ _ _ _ hrun)).parties j hj
+  have h := (hset j hj []).1
+  rcases step_cases H T (s.st j) [] none hP.cskip hP.cbuf with ⟨_, _, _, _, heq⟩ |
+    ⟨_, _, _, _, _, _, heq⟩ | ⟨hff, _⟩
+  · rw [heq] at h; cases h
+  · rw [heq] at h; cases h
+  · exact hff
+
+theorem final_of (hy : Hyp H c) {evs : List Event} {s : Sys}
+    (hrun : run H T c evs = some s) (hall : AllConsumed H T c evs s) (hset : Settled H T c s) :
+    Final H T c evs s :=
+  ⟨hy, hrun, hall, fun _ hj => settled_quiet hy hrun hset hj⟩
+
+/-- **validity** (corrected): in a settled run in which every message between honest parties was
+    consumed, a value broadcast by an honest sender whose digest passes the length check has been
+    delivered by every honest party under the tag it was broadcast with — in FIFO mode provided
+    the digests of the sender's earlier slots pass the length check, too; in non-FIFO mode
+    provided the sequence number is positive and the tag was used for this value only. -/
+theorem rbc_validity' (hy : Hyp H c) {evs : List Event} {s : Sys}
+    (hrun : run H T c evs = some s) (hall : AllConsumed H T c evs s) (hset : Settled H T c s)
+    {k : Nat} {tag : Tag} {v : Int} (hk : c.honest k) (hb : (k, tag, v) ∈ s.bc)
+    (hlen : LenOk T tag (H v))
+    (hlenF : c.fifo = true → ∀ τ' v', (k, τ', v') ∈ s.bc → τ'.seq < tag.seq → LenOk T τ' (H v'))
+    (hnf : c.fifo = false → 1 ≤ tag.seq ∧ ∀ v', (k, tag, v') ∈ s.bc → v' = v)
+    {i : Nat} (hi : c.honest i) :
+    (i, tag, v) ∈ s.dl :=
+  (final_of hy hrun hall hset).validity hk hi hb hlen hlenF (fun hf =>
+    ⟨(hnf hf).1, fun a b ha hb' => ((hnf hf).2 a ha).trans ((hnf hf).2 b hb').symm⟩)
+
+/-- **totality** (corrected): in a settled run in which every message between honest parties was
+    consumed, a slot delivered by one honest party has been delivered (with the same value) by
+    every honest party — also for Byzantine senders, in both modes, no further assumption. -/
+theorem rbc_totality' (hy : Hyp H c) {evs : List Event} {s : Sys}
+    (hrun : run H T c evs = some s) (hall : AllConsumed H T c evs s) (hset : Settled H T c s)
     {i j : Nat} {tag : Tag} {v : Int} (hi : c.honest i) (hj : c.honest j)
     (hd : (i, tag, v) ∈ s.dl) :
-    (j, tag, v) ∈ s.dl := by
-  sorry
+    (j, tag, v) ∈ s.dl :=
+  (final_of hy hrun hall hset).totality hi hj hd
 
-/-- non-vacuity: the example run of RbcGlobal (equivocating Byzantine sender, all three honest
-    parties deliver 100), extended if necessary by the missing hand-overs, satisfies the premises -/
-example : ∃ evs s, run Example.exH Example.exT Example.exC evs = some s ∧
-    AllHandedOver Example.exC evs s ∧ Settled Example.exH Example.exT Example.exC s ∧ s.dl ≠ [] := by
-  sorry
+/-! ## executable checks of the premises (for the concrete runs below) -/
+
+theorem phaseBuffer_bufMsg (p p1 : Party) (sent : Sent) (h : phaseBuffer p = .inr (p1, sent)) :
+    p1.bufMsg = p.bufMsg := by
+  unfold phaseBuffer at h
+  split at h
+  · split at h <;> cases h
+  · simp only [Sum.inr.injEq, Prod.mk.injEq] at h
+    obtain ⟨rfl, _⟩ := h
+    rfl
+
+/-- with nothing queued in `buf_msg` the permutation is irrelevant -/
+theorem step_pi_irrelevant (H : Int → Int) (T : Tag → Int) (p : Party)
+    (hb : p.bufMsg = List.replicate p.n []) (pi : List Nat) :
+    step H T p pi none = step H T p [] none := by
+  unfold step
+  cases h : phaseBuffer p with
+  | inl r => rfl
+  | inr x =>
+    obtain ⟨p1, sent⟩ := x
+    simp only []
+    rw [phaseBuffer_bufMsg p p1 sent h, hb, takeBuffered_replicate, takeBuffered_replicate]
+
+def recvOf : Event → Option (Nat × Nat × Msg)
+  | .recv i src m _ => some (src, i, m)
+  | _ => none
+
+def chkHanded (c : Cfg) (evs : List Event) (s : Sys) : Bool :=
+  s.log.all fun x => !(decide (c.honest x.1) && decide (c.honest x.2.1)) ||
+    evs.any (fun e => decide (recvOf e = some x))
+
+def chkConsumed (H : Int → Int) (T : Tag → Int) (c : Cfg) (evs : List Event) (s : Sys) : Bool :=
+  s.log.all fun x => !(decide (c.honest x.1) && decide (c.honest x.2.1)) ||
+    decide (x ∈ consumed H T c evs)
+
+def chkSettled (H : Int → Int) (T : Tag → Int) (c : Cfg) (s : Sys) : Bool :=
+  (List.range c.n).all fun i => !decide (c.honest i) ||
+    (decide ((s.st i).bufMsg = List.replicate (s.st i).n []) &&
+     decide ((step H T (s.st i) [] none).out = .idle) && (step H T (s.st i) [] none).sent.isEmpty)
+
+theorem chkHanded_sound {c : Cfg} {evs : List Event} {s : Sys} (h : chkHanded c evs s = true) :
+    AllHandedOver c evs s := by
+  intro src dst msg hlog hs hd
+  unfold chkHanded at h
+  have := List.all_eq_true.1 h (src, dst, msg) hlog
+  simp only [hs, hd, decide_true, Bool.and_self, Bool.not_true, Bool.false_or,
+    List.any_eq_true, decide_eq_true_eq] at this
+  obtain ⟨e, he, heq⟩ := this
+  cases e with
+  | recv i src' m pi =>
+    simp only [recvOf, Option.some.injEq, Prod.mk.injEq] at heq
+    obtain ⟨rfl, rfl, rfl⟩ := heq
+    exact ⟨pi, he⟩
+  | tick i pi => cases heq
+  | bcast i v rnd => cases heq
+
+theorem chkConsumed_sound {c : Cfg} {evs : List Event} {s : Sys}
+    (h : chkConsumed H T c evs s = true) : AllConsumed H T c evs s := by
+  intro src dst msg hlog hs hd
+  unfold chkConsumed at h
+  have := List.all_eq_true.1 h (src, dst, msg) hlog
+  simpa [hs, hd] using this
+
+theorem chkSettled_sound {c : Cfg} {s : Sys} (h : chkSettled H T c s = true) :
+    Settled H T c s := by
+  intro i hi pi
+  unfold chkSettled at h
+  have := List.all_eq_true.1 h i (List.mem_range.2 hi.1)
+  simp only [hi, decide_true, Bool.not_true, Bool.false_or, Bool.and_eq_true,
+    decide_eq_true_eq, List.isEmpty_iff] at this
+  obtain ⟨⟨h1, h2⟩, h3⟩ := this
+  rw [step_pi_irrelevant H T _ h1 pi]
+  exact ⟨h2, h3⟩
+
+theorem run_check {evs : List Event} {P : Sys → Bool}
+    (h : (run H T c evs).map P = some true) : ∃ s, run H T c evs = some s ∧ P s = true := by
+  cases hr : run H T c evs with
+  | none => rw [hr] at h; cases h
+  | some s =>
+    rw [hr] at h
+    simp only [Option.map_some, Option.some.injEq] at h
+    exact ⟨s, rfl, h⟩
+
+/-! ## counterexamples
+
+  Common setting: 4 parties, `t = 1`, party 3 Byzantine and silent, channel 7, the honest party 0
+  broadcasts; `H x = 2x+1` (injective, never 0). -/
+namespace Cx
+
+def cH : Int → Int := fun x => 2 * x + 1
+def cT : Tag → Int := fun _ => 62 ^ 20
+def cFifo : Cfg := ⟨4, 1, {3}, 7, true⟩
+def cNon : Cfg := ⟨4, 1, {3}, 7, false⟩
+
+theorem hypFifo : Hyp cH cFifo where
+  hn := by decide
+  hb := by decide
+  inj := by intro a b h; simp only [cH] at h; omega
+  h0 := by intro m h; simp only [cH] at h; omega
+
+theorem hypNon : Hyp cH cNon where
+  hn := by decide
+  hb := by decide
+  inj := by intro a b h; simp only [cH] at h; omega
+  h0 := by intro m h; simp only [cH] at h; omega
+
+def mk (seq a v : Int) : Msg := ⟨7, 0, seq, a, v⟩
+def all3 (f : Nat → List Event) : List Event := f 0 ++ f 1 ++ f 2
+def from3 (i : Nat) (m : Msg) : List Event := [.recv i 0 m [], .recv i 1 m [], .recv i 2 m []]
+/-- every honest party consumes the r-send of slot `seq` -/
+def sends (seq v : Int) : List Event := all3 fun i => [.recv i 0 (mk seq rSend v) []]
+/-- every honest party consumes the three honest echoes / readies of slot `seq` -/
+def echoes (seq v : Int) : List Event := all3 fun i => from3 i (mk seq rEcho (cH v))
+def readies (seq v : Int) : List Event := all3 fun i => from3 i (mk seq rReady (cH v))
+
+end Cx
+
+/-! ### (1) A `recv` event at a party that has a deliverable buffered message does not consume its
+    message.  Sender 0 broadcasts slots 1, 2, 3.  Parties 0 and 1 deliver all three.  Party 2
+    completes slot 2 first (buffered), collects two r-ready of slot 3, then completes slot 1
+    (delivered at once); the next event hands it the third r-ready of slot 3 — but that
+    iteration lets slot 2 out of the buffer and never reads the link.  Every message has been
+    "handed over", the run is settled, and party 2 never delivers slot 3. -/
+namespace Swallow
+open Cx
+
+def swEvents : List Event :=
+  [.bcast 0 11 0, .bcast 0 22 0, .bcast 0 33 0] ++
+  all3 (fun i => [.recv i 0 (mk 1 rSend 11) [], .recv i 0 (mk 2 rSend 22) [],
+                  .recv i 0 (mk 3 rSend 33) []]) ++
+  all3 (fun i => from3 i (mk 1 rEcho (cH 11)) ++ from3 i (mk 2 rEcho (cH 22)) ++
+                 from3 i (mk 3 rEcho (cH 33))) ++
+  from3 0 (mk 1 rReady (cH 11)) ++ from3 0 (mk 2 rReady (cH 22)) ++ from3 0 (mk 3 rReady (cH 33)) ++
+  from3 1 (mk 1 rReady (cH 11)) ++ from3 1 (mk 2 rReady (cH 22)) ++ from3 1 (mk 3 rReady (cH 33)) ++
+  from3 2 (mk 2 rReady (cH 22)) ++
+  [.recv 2 1 (mk 3 rReady (cH 33)) [], .recv 2 2 (mk 3 rReady (cH 33)) []] ++
+  from3 2 (mk 1 rReady (cH 11)) ++
+  [.recv 2 0 (mk 3 rReady (cH 33)) []] ++
+  [.recv 0 2 (mk 1 lRetrieve lRetrieve) [], .recv 1 2 (mk 1 lRetrieve lRetrieve) [],
+   .recv 2 0 (mk 1 lDeliver 11) [], .recv 2 1 (mk 1 lDeliver 11) []]
+
+def slot3 : Tag := ⟨7, 0, 3⟩
+
+theorem sw_check : (run cH cT cFifo swEvents).map (fun s =>
+    chkHanded cFifo swEvents s && chkSettled cH cT cFifo s &&
+    decide ((0, slot3, (33 : Int)) ∈ s.bc) && decide ((0, slot3, (33 : Int)) ∈ s.dl) &&
+    decide ((2, slot3, (33 : Int)) ∉ s.dl)) = some true := by decide
+
+theorem swallow_breaks : ∃ evs s, run cH cT cFifo evs = some s ∧ AllHandedOver cFifo evs s ∧
+    Settled cH cT cFifo s ∧ (0, slot3, (33 : Int)) ∈ s.bc ∧ (0, slot3, (33 : Int)) ∈ s.dl ∧
+    (2, slot3, (33 : Int)) ∉ s.dl := by
+  obtain ⟨s, hrun, hP⟩ := run_check sw_check
+  simp only [Bool.and_eq_true, decide_eq_true_eq] at hP
+  obtain ⟨⟨⟨⟨h1, h2⟩, h3⟩, h4⟩, h5⟩ := hP
+  exact ⟨swEvents, s, hrun, chkHanded_sound h1, chkSettled_sound h2, h3, h4, h5⟩
+
+end Swallow
+
+/-- **validity as first stated is false** -/
+theorem rbc_validity_refuted :
+    ¬ (∀ (H : Int → Int) (T : Tag → Int) (c : Cfg), Hyp H c → ∀ (evs : List Event) (s : Sys),
+        run H T c evs = some s → AllHandedOver c evs s → Settled H T c s →
+        ∀ (k : Nat) (tag : Tag) (v : Int), c.honest k → (k, tag, v) ∈ s.bc →
+        ∀ i, c.honest i → (i, tag, v) ∈ s.dl) := by
+  intro h
+  obtain ⟨evs, s, hrun, hall, hset, hbc, _, hno⟩ := Swallow.swallow_breaks
+  exact hno (h _ _ _ Cx.hypFifo evs s hrun hall hset 0 _ _ (by decide) hbc 2 (by decide))
+
+/-- **totality as first stated is false** -/
+theorem rbc_totality_refuted :
+    ¬ (∀ (H : Int → Int) (T : Tag → Int) (c : Cfg), Hyp H c → ∀ (evs : List Event) (s : Sys),
+        run H T c evs = some s → AllHandedOver c evs s → Settled H T c s →
+        ∀ (i j : Nat) (tag : Tag) (v : Int), c.honest i → c.honest j → (i, tag, v) ∈ s.dl →
+        (j, tag, v) ∈ s.dl) := by
+  intro h
+  obtain ⟨evs, s, hrun, hall, hset, _, hdl, hno⟩ := Swallow.swallow_breaks
+  exact hno (h _ _ _ Cx.hypFifo evs s hrun hall hset 0 2 _ _ (by decide) (by decide) hdl)
 
 end Tmcg.Rbc
